@@ -84,3 +84,48 @@ static void op_write(FILE *out, const char *id, char **a, int n) {
     free(all); free(buf);
     zck_free(&r); close(rfd);
 }
+
+/* WRITE3 <out1> <out2> <out3> <comp none|zstd> <hexdata>: three writer contexts with overlapping lifetimes, in the order a process
+ * that writes several files may well use: A is written and closed but freed late; B's output is opened (it gets the lowest free
+ * descriptor number) and B initialised; A is freed; C's output is opened and C initialised; B and C are written and closed.
+ * Every output must then hold what its context was given, regardless of which descriptor numbers were free when.
+ * -> OK c=<closeA><closeB><closeC> rt=<1|0 per file: opens, validates, reads back its content> */
+static int w3_roundtrip(const char *path, const unsigned char *want, size_t wl) {
+    int rfd; zckCtx *r = open_file(path, &rfd);
+    if(!r) return 0;
+    int ok = zck_validate_checksums(r) == 1;
+    size_t cap = wl + 65536, len = 0; unsigned char *all = malloc(cap); ssize_t rr;
+    while(ok && (rr = zck_read(r, (char *)all + len, cap - len)) > 0) len += rr;
+    ok = ok && len == wl && memcmp(all, want, wl) == 0 && zck_close(r);
+    free(all); zck_free(&r); close(rfd);
+    return ok;
+}
+static zckCtx *w3_begin(int fd, const char *comp) {
+    zckCtx *z = zck_create();
+    if(!zck_init_write(z, fd)) return NULL;
+    zck_set_ioption(z, ZCK_COMP_TYPE, strcmp(comp, "none") == 0 ? ZCK_COMP_NONE : ZCK_COMP_ZSTD);
+    return z;
+}
+static void op_write3(FILE *out, const char *id, char **a, int n) {
+    size_t dl; unsigned char *d = get_hex(a[4], &dl);
+    /* three different contents of the same length, so that a mix-up shows */
+    unsigned char *dA = malloc(dl + 1), *dB = malloc(dl + 1), *dC = malloc(dl + 1);
+    for(size_t i = 0; i < dl; i++) { dA[i] = d[i]; dB[i] = d[i] ^ 0x5a; dC[i] = (unsigned char)(d[i] + 7); }
+    int fA = open(a[0], O_TRUNC | O_RDWR | O_CREAT, 0666);
+    zckCtx *A = fA >= 0 ? w3_begin(fA, a[3]) : NULL;
+    if(!A) { fprintf(out, "%s HARNESS-ERR A\n", id); return; }
+    int cA = zck_write(A, (char *)dA, dl) == (ssize_t)dl && zck_close(A);
+    int fB = open(a[1], O_TRUNC | O_RDWR | O_CREAT, 0666);
+    zckCtx *B = fB >= 0 ? w3_begin(fB, a[3]) : NULL;
+    zck_free(&A);                                            /* A is released only now */
+    int fC = open(a[2], O_TRUNC | O_RDWR | O_CREAT, 0666);
+    zckCtx *C = fC >= 0 ? w3_begin(fC, a[3]) : NULL;
+    if(!B || !C) { fprintf(out, "%s OK c=%d-- rt=---\n", id, cA); return; }
+    int cB = zck_write(B, (char *)dB, dl) == (ssize_t)dl && zck_close(B);
+    int cC = zck_write(C, (char *)dC, dl) == (ssize_t)dl && zck_close(C);
+    zck_free(&B); zck_free(&C);
+    close(fA); close(fB); close(fC);
+    fprintf(out, "%s OK c=%d%d%d rt=%d%d%d\n", id, cA, cB, cC,
+            cA ? w3_roundtrip(a[0], dA, dl) : 1, cB ? w3_roundtrip(a[1], dB, dl) : 1, cC ? w3_roundtrip(a[2], dC, dl) : 1);
+    free(d); free(dA); free(dB); free(dC);
+}
